@@ -12,7 +12,7 @@ Model (derived from the property statement, independent of the library):
 The resolution of a base is its true common bin width; a variable-width base counts as resolution 1 (library convention,
 needed to name the levels at all).
 """
-import sys, os, signal, itertools
+import sys, os, signal, itertools, atexit, shutil
 sys.path.insert(0, os.path.dirname(os.path.dirname(os.path.abspath(__file__))))
 import numpy as np
 import h5py
@@ -107,14 +107,43 @@ def _alarm(signum, frame):
     raise Timeout("no result within the time limit (worker pool / lock never returned)")
 
 
-def with_timeout(fn, seconds=120):
+_TIMEOUTS = [0]
+
+
+def with_timeout(fn, seconds=60):
+    """a call that never returns (e.g. a lock that is not released) becomes an exception; after two such calls the
+    remaining guarded calls fail at once instead of waiting again (the library's global lock stays held)"""
+    if _TIMEOUTS[0] >= 2:
+        raise Timeout("not run: two earlier calls already hit the time limit")
     old = signal.signal(signal.SIGALRM, _alarm)
     signal.setitimer(signal.ITIMER_REAL, seconds)
     try:
         return fn()
+    except Timeout:
+        _TIMEOUTS[0] += 1
+        raise
     finally:
         signal.setitimer(signal.ITIMER_REAL, 0)
         signal.signal(signal.SIGALRM, old)
+
+
+class _NoResult:
+    """stands in for a click result when the invocation did not return in time"""
+    exit_code = None
+    output = ""
+
+    def __init__(self, e):
+        self.exception = e
+
+
+def invoke(runner, cli, args):
+    try:
+        res = with_timeout(lambda: runner.invoke(cli, args))
+    except Timeout as e:
+        return _NoResult(e)
+    if isinstance(res.exception, Timeout):  # click caught it
+        _TIMEOUTS[0] += 1
+    return res
 
 
 class PerSignature(Bounded):
@@ -154,7 +183,9 @@ class Base:
         kw = dict(dtypes={c: self.pix[c].dtype for c in cols})
         if cols != ["count"]:
             kw["columns"] = cols
-        cooler.create_cooler(self.uri, self.bins, self.pix, symmetric_upper=symm, ordered=True, **kw)
+        # a distinctive metadata document / assembly name: a level that is re-derived instead of copied loses them
+        cooler.create_cooler(self.uri, self.bins, self.pix, symmetric_upper=symm, ordered=True,
+                             metadata={"source": f"{name}/{mname}/{Base._n}"}, assembly=f"asm{Base._n}", **kw)
         self._model = {}
         self._direct = {}
         self.B = B
@@ -234,6 +265,9 @@ def check_zoom(B, bases, targets, out, case, kind, cols=("count",), nontrivial=T
         if res in base_by_res:
             b = base_by_res[res]
             src = read_cool(b.uri, cols)
+            # the time stamp is the one attribute a faithful copy may renew; everything else must be the source's
+            for d_ in (got, src):
+                d_["attrs"].pop("creation-date", None)
             same = all(got[k] == src[k] for k in ("chroms", "bins", "bins_extra", "pixels", "indexes", "attrs"))
             B.check("base-level==copy-of-its-source", same, lcase,
                     {k: got[k] for k in ("bins", "pixels", "attrs", "bins_extra", "indexes")},
@@ -256,11 +290,13 @@ def check_zoom(B, bases, targets, out, case, kind, cols=("count",), nontrivial=T
                 B.check("derived-level-has-requested-columns", got["value_columns"] == list(cols), lcase, got["pixel_columns"],
                         ["bin1_id", "bin2_id"] + list(cols), signature=f"derived-level-has-requested-columns:{kind}")
             else:
-                d = B.guarded("derived-level==coarsen_cooler-of-base", lcase, lambda: cands[0].direct(res // cands[0].res),
-                              signature=f"derived-level==coarsen_cooler-of-base:exception:{kind}")
-                if d is not None:
-                    B.check("derived-level==coarsen_cooler-of-base", got["bins"] == d["bins"] and got["pixels"] == d["pixels"]
-                            and got["indexes"] == d["indexes"], lcase, dict(bins=got["bins"], pixels=got["pixels"], indexes=got["indexes"]),
+                ds = B.guarded("derived-level==coarsen_cooler-of-base", lcase, lambda: [b.direct(res // b.res) for b in cands],
+                               signature=f"derived-level==coarsen_cooler-of-base:exception:{kind}")
+                if ds is not None:
+                    d = ds[0]
+                    B.check("derived-level==coarsen_cooler-of-base",
+                            any(got["bins"] == d_["bins"] and got["pixels"] == d_["pixels"] and got["indexes"] == d_["indexes"] for d_ in ds),
+                            lcase, dict(bins=got["bins"], pixels=got["pixels"], indexes=got["indexes"]),
                             dict(bins=d["bins"], pixels=d["pixels"], indexes=d["indexes"]), nontrivial and cands[0].nnz > 0,
                             signature=f"derived-level==coarsen_cooler-of-base:{kind}")
 
@@ -333,21 +369,22 @@ def multiplier_contract(B, targets, bases, label):
             signature="multiplier-plan:" + label)
     if ok and len(bset) > 1:
         # "every base level is a faithful copy of its source": a base must be copied (pred -1), never re-derived
-        B.check("multiplier-plan:base-is-copied-not-rederived", all(pred[i] == -1 for i, r in enumerate(resn) if r in bset), case,
+        B.check("multiplier-plan.base-is-copied-not-rederived", all(pred[i] == -1 for i, r in enumerate(resn) if r in bset), case,
                 dict(resn=resn, pred=pred), "pred == -1 for every base", True,
-                signature="multiplier-plan:base-is-copied-not-rederived:several-bases")
+                signature="multiplier-plan.base-is-copied-not-rederived:several-bases")
 
 
 def main():
     B = PerSignature("C09", "bounded/C09.py")
     B.max_violations = 40
+    atexit.register(shutil.rmtree, B.tmp, ignore_errors=True)  # nothing stays under /tmp even if the runner itself crashes
     T = B.thorough
     rng = B.rng
     MULT = [1, 2, 3, 4, 6, 8, 12]
     B.bound = ("plan level: get_multiplier_sequence on ALL subsets of {1,2,3,4,5,6,8,9,12} x (bases = every non-empty subset of {1,2,3,4} or None) "
                "and all orders of subsets of size<=3; file level: base coolers {fixed 15/7/5 bins, variable, one-bin chromosomes, with weight column, "
                "nested group, empty, square} x target sets = "
-               + ("ALL subsets of {1,2,3,4,6,8,12}*base in sorted/reversed/shuffled order on 2 fixed bases and a variable base, all orders of all subsets of size<=3 of {1,2,3,4,6,12}*base, "
+               + ("ALL subsets of {1,2,3,4,6,8,12}*base in sorted/reversed/shuffled order on 2 fixed bases and (2 orders) a variable base, all orders of all subsets of size<=3 of {1,2,3,4,6,12}*base, "
                   if T else
                   "all subsets of size<=3 of {1,2,3,4,6,8,12}*base + the full set + 12 seeded larger subsets on a fixed base (orders rotate sorted/reversed/shuffled), all subsets of size<=2 on a variable base, all orders of {2,3,6} and {1,2,4}, ")
                + "chunksize in {2,7,10^6} rotating, nproc in {1,2}; 1-2 base URIs (consistent and inconsistent second base, either order); "
@@ -410,12 +447,12 @@ def main():
     allsub = [c for k in range(0, 8) for c in itertools.combinations(MULT, k)]
     if not T:
         upto3 = [c for c in allsub if len(c) <= 3]
-        larger = [c for c in allsub if len(c) > 3]
+        larger = [c for c in allsub if 3 < len(c) < 7]
         sweep(b_big, upto3 + [tuple(MULT)] + rng.sample(larger, 12), ["rotate"])
         sweep(b_var, [c for c in allsub if len(c) <= 2], ["rotate"])
     else:
         sweep(b_big, allsub, HOW)
-        sweep(b_mid, allsub, ["sorted", "shuffled"])
+        sweep(b_mid, allsub, HOW)
         sweep(b_var, allsub, ["reversed", "shuffled"])
     # all orders
     if not T:
@@ -495,7 +532,8 @@ def main():
     dense_mid = mat(mid, "dense")
     dense_mid["w"] = [0.25 * (i % 7) for i in range(len(dense_mid))]
     b_w = Base(B, "fixed10-3chrom", mid, "dense+w", dense_mid)
-    run_zoom(B, [b_w], [20, 40], 7, 1, "w1", kind="extra-value-column", cols=["count", "w"])
+    run_zoom(B, [b_w], [20, 40], 7, 1, "w1", kind="extra-value-column", cols=["count", "w"])   # 40 is derived from a derived level
+    run_zoom(B, [b_w], [30], 7, 1, "w3", kind="extra-value-column", cols=["count", "w"])       # 30 is derived from the base itself
     run_zoom(B, [b_w], [30], 2, 1, "w2", kind="single-base", cols=["count"])
 
     # ---------------------------------------------------------------- 7. CLI
@@ -517,11 +555,11 @@ def main():
     for n, (base, opts, targets, more) in enumerate(cli_cases):
         out = B.path(f"cli{n}.mcool")
         args = ["zoomify"] + opts + [x for b in more for x in ("-i", b.uri)] + ["-o", out, base.uri]
-        kind = "cli:" + ("single-base" if not more else "multi-base")
+        kind = "cli-" + ("single-base" if not more else "multi-base")
         case = dict(bases=[b.describe() for b in [base] + more], argv=["zoomify"] + opts + ["-i BASE2"] * len(more) + ["-o", "OUT", "BASE"])
-        res = with_timeout(lambda: runner.invoke(cli, args))
-        if B.check("cli:zoomify-exit-0", res.exit_code == 0 and res.exception is None, case, repr(res.exception), "exit 0",
-                   signature=f"cli:zoomify-exit-0:{kind}"):
+        res = invoke(runner, cli, args)
+        if B.check("cli.zoomify-exit-0", res.exit_code == 0 and res.exception is None, case, repr(res.exception), "exit 0",
+                   signature=f"cli.zoomify-exit-0:{kind}"):
             check_zoom(B, [base] + more, targets, out, case, kind)
         if os.path.exists(out):
             os.remove(out)
@@ -529,21 +567,21 @@ def main():
     import shutil as _sh
     src = B.path("named.cool")
     _sh.copy(parse_cooler_uri(b_big.uri)[0], src)
-    res = runner.invoke(cli, ["zoomify", "-r", "20", src])
+    res = invoke(runner, cli, ["zoomify", "-r", "20", src])
     case = dict(bases=[b_big.describe()], argv=["zoomify", "-r", "20", "named.cool"])
-    if B.check("cli:zoomify-exit-0", res.exit_code == 0 and os.path.exists(B.path("named.mcool")), case, repr(res.exception),
-               "exit 0 and named.mcool written", signature="cli:zoomify-exit-0:cli:default-output"):
-        check_zoom(B, [b_big], [20], B.path("named.mcool"), case, "cli:single-base")
+    if B.check("cli.zoomify-exit-0", res.exit_code == 0 and os.path.exists(B.path("named.mcool")), case, repr(res.exception),
+               "exit 0 and named.mcool written", signature="cli.zoomify-exit-0:cli-default-output"):
+        check_zoom(B, [b_big], [20], B.path("named.mcool"), case, "cli-single-base")
     # a refused resolution must not exit 0
     out = B.path("cli-bad.mcool")
-    res = runner.invoke(cli, ["zoomify", "-r", "20,25", "-o", out, b_big.uri])
+    res = invoke(runner, cli, ["zoomify", "-r", "20,25", "-o", out, b_big.uri])
     B.check("non-derivable-resolution-refused", res.exit_code != 0 and isinstance(res.exception, ValueError),
             dict(bases=[b_big.describe()], argv=["zoomify", "-r", "20,25", "-o", "OUT", "BASE"]), repr(res.exception), "ValueError / non-zero exit",
             signature="non-derivable-resolution-refused:cli")
 
     # ---------------------------------------------------------------- 8. seeded random sampling
     if T:
-        for i in range(120):
+        for i in range(150):
             nch = rng.randrange(1, 4)
             fixedw = rng.random() < 0.6
             w = rng.randrange(2, 9)
